@@ -913,4 +913,122 @@ func replay(in json.RawMessage, res *vh.Result) error {
 	return nil
 }
 
-func main() { vh.Main(map[string]vh.Mode{"replay": replay}) }
+// jobprobe: conformance of an atomicity assumption of SubLifecycle.tla. The model takes the dissolver job
+// (check "no local subscribers" + Broker.Unsubscribe) as ONE action under the channel's subLock, mutually
+// exclusive with addSubscription's (hub add + Broker.Subscribe). The probe parks the real job inside
+// Broker.Unsubscribe and starts another connection's subscribe: it must not get through before the job is
+// released; at the end a local subscriber must imply a broker subscription (C26) and receive a publication (C04).
+func jobprobe(in json.RawMessage, res *vh.Result) error {
+	var cfg struct {
+		N int `json:"n"`
+	}
+	_ = json.Unmarshal(in, &cfg)
+	if cfg.N == 0 {
+		cfg.N = 4
+	}
+	var wg sync.WaitGroup
+	for i := 0; i < cfg.N; i++ {
+		wg.Add(1)
+		go func(i int) {
+			defer wg.Done()
+			env, err := cl.NewEnv(centrifuge.Config{LogLevel: centrifuge.LogLevelNone})
+			if err != nil {
+				res.Drift("", err.Error(), nil)
+				return
+			}
+			gb, err := cl.NewGateBroker(env.Node)
+			if err != nil {
+				res.Drift("", err.Error(), nil)
+				return
+			}
+			env.Node.SetBroker(gb)
+			ch := fmt.Sprintf("jp%d_%d", vh.Seed(), i)
+			unsubGate := cl.NewGate()
+			var mu sync.Mutex
+			var calls []string
+			subArrived := make(chan struct{}, 4)
+			gb.OnSubscribe = func(c string) {
+				if c == ch {
+					mu.Lock()
+					calls = append(calls, "sub")
+					mu.Unlock()
+					subArrived <- struct{}{}
+				}
+			}
+			gb.OnUnsubscribe = func(c string) {
+				if c == ch {
+					unsubGate.Arrive(10 * time.Second)
+					mu.Lock()
+					calls = append(calls, "unsub")
+					mu.Unlock()
+				}
+			}
+			if err := env.Run(); err != nil {
+				res.Drift("", err.Error(), nil)
+				return
+			}
+			defer env.Close()
+			a, _ := env.NewConn("a", centrifuge.ProtocolTypeJSON)
+			b, _ := env.NewConn("b", centrifuge.ProtocolTypeJSON)
+			a.Connect()
+			b.Connect()
+			if err := a.Client.Subscribe(ch); err != nil {
+				res.Drift("", "probe subscribe: "+err.Error(), nil)
+				return
+			}
+			<-subArrived
+			a.Client.Unsubscribe(ch)
+			if !unsubGate.WaitArrived(4 * time.Second) {
+				res.Drift("C26", "dissolver job did not call Broker.Unsubscribe within 4 s after the last subscriber left", nil)
+				res.Done(1, 0)
+				return
+			}
+			// the job is parked inside Broker.Unsubscribe (holding the subLock in the reference)
+			bDone := make(chan error, 1)
+			go func() { bDone <- b.Client.Subscribe(ch) }()
+			early := false
+			select {
+			case <-subArrived:
+				early = true
+			case <-bDone:
+				early = true
+			case <-time.After(150 * time.Millisecond):
+			}
+			unsubGate.Release()
+			if !early {
+				select {
+				case <-bDone:
+				case <-time.After(3 * time.Second):
+					res.Drift("C26", "second subscribe did not finish after the job was released", nil)
+					res.Done(1, 0)
+					return
+				}
+			} else {
+				select {
+				case <-bDone:
+				case <-time.After(time.Second):
+				}
+			}
+			time.Sleep(20 * time.Millisecond)
+			mu.Lock()
+			cs := append([]string(nil), calls...)
+			mu.Unlock()
+			local := env.Node.Hub().NumSubscribers(ch) > 0
+			brokerSub := len(cs) > 0 && cs[len(cs)-1] == "sub"
+			replay := map[string]any{"scenario": "subscribe; unsubscribe; dissolver job parked in Broker.Unsubscribe; second connection subscribes; job released", "broker_calls": cs, "second_subscribe_got_through_early": early}
+			if local && !brokerSub {
+				res.Violate("C26", "probe:local-subscriber-without-broker-subscription", fmt.Sprintf("a connection is subscribed locally but the node's last broker call for the channel is an unsubscribe (calls %v): a subscribe got through while the deferred broker unsubscribe was in flight", cs), replay)
+				res.Violate("C04", "probe:subscribed-without-broker-routing", fmt.Sprintf("connection reports subscribed=%v but the node is not subscribed to the channel in the broker (calls %v)", b.Client.IsSubscribed(ch), cs), replay)
+			} else if early {
+				res.Drift("C26", fmt.Sprintf("subscribe was not blocked by the parked dissolver job, calls %v", cs), replay)
+			}
+			res.Distinct(fmt.Sprintf("probe-%d", i))
+			res.Sample(replay)
+			res.Done(1, 1)
+		}(i)
+	}
+	wg.Wait()
+	return nil
+}
+
+func main() { vh.Main(map[string]vh.Mode{"replay": replay, "jobprobe": jobprobe}) }
